@@ -9,6 +9,22 @@ CHECKS = {
    text="Theorems (Coq, all inputs): the model of the FP8/bfloat16 encoders equals round-to-nearest-even on exact values for every non-NaN float32, is monotone, and code->float->code is the identity on all non-NaN codes (finite domains by vm_compute). Tie: the Go encoders are run on ALL 2^32 bit patterns per format and compared with the model run by run; theorem C20_run_lifting lifts end-point agreement to whole runs, so model = implementation on the full domain in every run.",
    note="Trusted: Coq kernel+vm_compute, the hand transcription of datatype_fp8.go/datatype_bfloat16.go (validated exhaustively each run), exact-value replacement of math.Log2/Pow/RoundToEven, Go harness glue. Known finding: NaN -> 0x7F (+Inf code) pinned by tests.",
    design="7/C20", technique="Coq theorem (nearest-even, monotone) + exhaustive differential tie lifted by a monotonicity lemma"),
+ "C09": dict(
+   text="Theorems (Coq, all ranks, all inputs): the model of validate accepts exactly the selections inside the dataset (uint64 wrap-around modelled; completeness up to the documented 10^9-block limit); every extraction path (compact recursion, single contiguous read under the exact contiguity test, 2-D element-wise, selection run, chunked with computed output position) and the dispatcher return select(full, row-major coordinates); invalid selections are rejected; the chunk iterator visits each chunk once, its boxes partition the index space and each piece is the box selection. Tie: complete enumeration of selections over small extents (all chunk shapes, partial edges) plus random rank 1-4 / filtered / corpus (compact) datasets; Go == independent oracle on the full Read == Coq model.",
+   note="Trusted: hand transcription of dataset_read_hyperslab.go/overflow.go/dataset_chunk_iterator.go (validated each run), chunk store = format layout, B-tree/filters/datatype conversion not modelled (exercised through Dataset.Read in the tie), extraction arithmetic unbounded (dataset < 2^64 bytes). No open finding; 4 fix: commits.",
+   design="7/C09", technique="Coq theorems (general rank) + exhaustive small-scope differential tie"),
+ "C15": dict(
+   text="Theorems (Coq, all histories incl. interleaved store/load, all block sizes 20..65536, every map-order choice): the model of the writable fractal heap refines a finite map id->bytes: live ids return their bytes, are pairwise distinct with disjoint ranges, header count/free equal the map's; a failing insert changes nothing; load(store s) preserves state and commutes with later operations; every live byte is in the serialised block and both read-only readers return it. Tie: generated histories replayed on the Go heap and on the model with all ids, bytes, ok/err, header counters, CRC of serialised header/block and both readers compared; independent Python dict oracle.",
+   note="Trusted: hand transcription of fractalheap_write.go / fractalheap.go / core/attribute.go heap reader (validated each run), 8/8/LE superblock, CRC-32 reimplementation. Excluded by named hypotheses with refutation lemmas and listed as KNOWN-FINDINGs: multi-block heaps, operations on non-live ids.",
+   design="7/C15", technique="Coq refinement proof (simulation relation, byte-level codec round trip) + differential tie + refuted-class witnesses"),
+ "C01": dict(
+   text="Theorems (Coq, every rank >= 1, all positive extents and chunk extents incl. non-dividing and larger-than-extent, every element size): placing every chunk the writer emits (full-size, zero-padded, keyed by element offset) back through the reader's placement returns exactly the data, in any chunk order; the writer's chunk enumeration visits each coordinate once; integer encodings of every width and both signednesses decode to the written value with the recorded sign bit (unsigned values never read negative); float64 bit patterns and fixed strings round-trip; integer->float64 widening exact below 2^53. Ties: (unit) Go chunk extraction + reader placement + element conversion vs the Coq model byte for byte; (history) one fully written dataset per file over all element types x ranks 1-4 x extents x chunk shapes x filters x superblock 0/2/3 with extreme data, closed, reopened with hdf5.Open and compared with the written values (Info, raw bytes, Read, ReadStrings; error where no typed read exists).",
+   note="Trusted: transcription of chunk_coordinator.go / dataset_reader.go copyNDChunk / element encoders (validated each run by c01unit), tools/histlib.py oracle, hist harness. The chunk B-tree, object header and superblock codecs are covered by C11/C05, not by these theorems; compound/array/enum/opaque types are outside the generated domain.",
+   design="7/C01", technique="Coq tiling/round-trip theorems (general rank) + unit differential tie + history-level reopen tie"),
+ "C13": dict(
+   text="Theorems (Coq, all ranks/extents/chunk shapes): reading the chunks written for the old extent under the new extent equals resize_arr (elements inside both extents kept, new space zero, outside gone) for any single resize mixing growing and shrinking dimensions, and for two resizes when no intermediate extent is below both outer extents; resize_arr laws. C13_shrink_grow_refuted exhibits the one failing class (shrink then grow without a rewrite), a listed KNOWN-FINDING. Ties: unit (Go reader placement under new dims vs model) and history-level: grow/shrink/rewrite sequences over ranks 1-3, fixed and unlimited maxima, requests beyond the maximum (must be rejected), shape and values after reopen vs the oracle.",
+   note="Trusted: as C01. Resize's header rewrite (dataspace message) is tied only at history level. Known finding C13-shrink-then-grow is excluded from the generated gating histories by construction and re-confirmed on every run.",
+   design="7/C13", technique="Coq theorem read_after_resize = resize_arr + refuted-class witness + history-level tie"),
 }
 NOT_APPLICABLE = []
 
